@@ -172,8 +172,11 @@ def rule_nonempty_changes(ctx, rep):
     ok = bool(calls) and all(n.args and (True, unparse(n.args[0])) in fa.must_at(n) for n in calls)
     rep.check("R-NONEMPTY-CHANGES", w.qname, w.loc(), ok, "write-forwards-nonempty", "DependencyWriter.write can call add_to_file with an empty dependency list")
     bc = ctx.prog.func("codemodder.dependency_management.base_dependency_writer.DependencyWriter.build_changes")
-    comp = [n for n in walk_no_nested(bc.node) if isinstance(n, ast.ListComp)]
-    ok = bool(comp) and not comp[0].generators[0].ifs and "dependencies" in names_in(comp[0].generators[0].iter)
+    from ..derive import one_per_element
+
+    dep_param = bc.positional_params()[1] if len(bc.positional_params()) > 1 else "dependencies"
+    rets = [r_.value for r_ in walk_no_nested(bc.node) if isinstance(r_, ast.Return) and r_.value is not None]
+    ok = bool(rets) and all(one_per_element(ctx, bc, v, dep_param) for v in rets)
     rep.check("R-NONEMPTY-CHANGES", bc.qname, bc.loc(), ok, "one-change-per-dependency", "build_changes does not yield one Change per dependency")
 
 
